@@ -18,6 +18,7 @@ func init() {
 			ruleLabelRegexAnchoring(r)
 			ruleOpenLog(r)
 			ruleFetchContainers(r)
+			ruleSanitiserSites(r)
 		},
 	})
 }
